@@ -31,7 +31,7 @@ Codec(t) ==
   IF ~(t.eq /\ t.hasheq) THEN "REJECT EqualHash" ELSE
   "ACCEPT"
 
-StyleOK(st) == st.pi \in 1..6 /\ st.num \in 1..5 /\ st.layout \in 1..4
+StyleOK(st) == st.pi \in 1..6 /\ st.num \in 1..6 /\ st.layout \in 1..4
 SpellingEv(t) ==
   LET op == Dec(t.c) IN
   IF ~(InRange(t.c) /\ \A i \in 1..3 : StyleOK(t.styles[i]) /\ NonZeroRow(op.r[i])) THEN "OOD style" ELSE
